@@ -158,13 +158,22 @@ func generate(rng *rand.Rand, tier string) []interface{} {
 	add := func(in Input) { ins = append(ins, in) }
 	scale := 1
 	if tier != "quick" {
-		scale = 8
+		scale = 24
 	}
 
 	// ---- A. every segmentation of two tiny streams -----------------------------
 	tinyA := []ItemSpec{frame(&PayloadSpec{Parts: []PartSpec{{Hex: "abcd"}}}), frame(&PayloadSpec{})} // 6 + 4 bytes
 	for _, cuts := range compositions(10) {
 		add(stream("conn", "exhaustive", 64, tinyA, cutStyle{cuts: cuts}))
+	}
+	if tier != "quick" {
+		// 12 bytes: a 3-byte frame, an empty frame, and a header announcing 1 byte that never comes
+		tinyC := []ItemSpec{frame(&PayloadSpec{Parts: []PartSpec{{Hex: "0a0b0c"}}}), frame(&PayloadSpec{}), rawHex("00000001")}
+		for _, cuts := range compositions(15) {
+			if len(cuts)%4 == 0 { // a quarter of the 16384 segmentations
+				add(stream("conn", "exhaustive", 64, tinyC, cutStyle{cuts: cuts}))
+			}
+		}
 	}
 	tinyB := []ItemSpec{frame(&PayloadSpec{Parts: []PartSpec{{Hex: "7f"}}}), frame(&PayloadSpec{})} // 5 + 4 bytes
 	for _, cuts := range compositions(9) {
@@ -332,9 +341,9 @@ func generate(rng *rand.Rand, tier string) []interface{} {
 		add(stream(level, "garbage", defaultLimit, items, randCuts(rng, wireLen(items))))
 	}
 	// garbage straight into a listening router (no identity in front)
-	for i := 0; i < 10*scale; i++ {
+	for i := 0; i < 18*scale; i++ {
 		var items []ItemSpec
-		switch i % 4 {
+		switch i % 6 {
 		case 0:
 			items = []ItemSpec{{Kind: "raw", Raw: []PartSpec{{Fill: &fill{uint64(rng.Intn(1 << 16)), 4 + rng.Intn(80)}}}}}
 		case 1: // a valid frame that is not an identity
@@ -343,6 +352,21 @@ func generate(rng *rand.Rand, tier string) []interface{} {
 			items = []ItemSpec{frame(&PayloadSpec{Val: &ValSpec{Type: "identity", Seed: 900003}}),
 				frame(&PayloadSpec{Val: randVal(rng, 6)}), frame(ghostPayload(i, 9)),
 				frame(&PayloadSpec{Val: &ValSpec{Type: "sentinel", Seed: int64(i)}})}
+		case 3: // an identity written raw, then mutated frames, then the sentinel
+			items = []ItemSpec{frame(&PayloadSpec{Val: &ValSpec{Type: "identity", Seed: 900003}})}
+			for j := 0; j < 2+rng.Intn(4); j++ {
+				it, _ := refusedFrame(rng, rng.Intn(7))
+				items = append(items, it)
+				if rng.Intn(2) == 0 {
+					items = append(items, frame(&PayloadSpec{Val: randVal(rng, 8)}))
+				}
+			}
+			items = append(items, frame(&PayloadSpec{Val: &ValSpec{Type: "sentinel", Seed: int64(i)}}))
+		case 4: // a first frame that never completes: the router keeps waiting
+			items = []ItemSpec{rawHex("00000040" + hex.EncodeToString(lcgFill(uint64(i), rng.Intn(40))))}
+			if rng.Intn(2) == 0 {
+				items = []ItemSpec{rawHex([]string{"00", "0000", "000000"}[rng.Intn(3)])}
+			}
 		default: // an identity whose body is cut short
 			items = []ItemSpec{frame(&PayloadSpec{Val: &ValSpec{Type: "identity", Seed: 900003}, Mut: []MutOp{{Op: "trunc", N: 40}}}),
 				frame(&PayloadSpec{Val: &ValSpec{Type: "sentinel", Seed: int64(i)}})}
